@@ -504,6 +504,18 @@ impl TropicalSubgraphTable {
     }
 }
 
+/// Verification hook (only with `--cfg momtrop_verif`): drive `sample_edge` at a chosen
+/// subgraph id and uniform number; returns the selected edge and the id of the remainder.
+#[cfg(momtrop_verif)]
+impl TropicalSubgraphTable {
+    pub fn verif_sample_edge<T: MomTropFloat>(&self, uniform: &T, subgraph_id: usize) -> (usize, usize) {
+        let num_edges = self.tropical_graph.topology.len();
+        let (edge, rest) =
+            self.sample_edge(uniform, &TropicalSubGraphId::from_id(subgraph_id, num_edges));
+        (edge, rest.get_id())
+    }
+}
+
 // some tests
 #[cfg(test)]
 mod tests {
